@@ -25,7 +25,7 @@ ASSUMPTIONS = [
     "'best' = minimum for min-type and maximum for max-type measures, as the statement says",
 ]
 GATES = {
-    "constant_ambiguity_volume": 1, "ambiguity_differs_on_less_than_1_percent_of_the_pixels": 1, "threshold_1": 1, "best_at_first_or_last_disparity": 1,
+    "constant_ambiguity_volume": 1, "volume_spanning_two_blocks_of_100": 2, "risk_on_a_volume_spanning_two_blocks_of_100": 1, "ambiguity_differs_on_less_than_1_percent_of_the_pixels": 1, "threshold_1": 1, "best_at_first_or_last_disparity": 1,
     "two_steps_same_method_different_suffix": 1, "same_configuration_run_twice": 3, "confidence_step_whose_suffix_contains_a_dot": 1, "max_type_volume": 3, "pipelines_compared_with_and_without": 5,
     "regularisation_quantile_1": 1, "regularised_interval_bounds_after_ambiguity": 1, "regularisation_kernel_size_1": 1, "pixels_judged": 20000,
 }
@@ -202,6 +202,11 @@ def run_case(case, ctx):
     rng = ctx.rng("synth", case["part"], case["i"])
     H, W = int(rng.integers(1, 20)), int(rng.integers(2, 28))
     D = int(rng.choice([2, 3, 5, 9, 17]))
+    tall = case["i"] % 12 in (3, 9)
+    if tall:
+        # volumes spanning more than one block of 100 rows / columns (the kernels of other steps work in such blocks)
+        H, W = (int(rng.integers(101, 131)), int(rng.integers(3, 9))) if case["i"] % 12 == 3 else (int(rng.integers(3, 9)), int(rng.integers(101, 131)))
+        D = int(rng.choice([3, 5]))
     tm = ["min", "max"][int(rng.integers(0, 2))]
     nan_kind = ["none", "holes", "mixed", "none"][int(rng.integers(0, 4))]
     floaty = rng.random() < 0.5
@@ -229,6 +234,10 @@ def run_case(case, ctx):
     method = ["ambiguity", "risk", "interval_bounds", "std_intensity", "ambiguity"][int(rng.integers(0, 5))]
     if nearly_constant:
         method = "ambiguity"
+    if tall:
+        method = ["risk", "ambiguity", "interval_bounds", "risk"][(case["i"] // 12 + case["part"]) % 4]
+        ctx.gate("volume_spanning_two_blocks_of_100", 1)
+        ctx.gate("risk_on_a_volume_spanning_two_blocks_of_100", int(method == "risk"))
     if method == "std_intensity" and (H < w or W < w):
         w = 1
         cv.attrs["window_size"], cv.attrs["offset_row_col"] = 1, 0
